@@ -506,6 +506,19 @@ theorem cinv_step {s s' : CState} {l : Label} (h : CInv s) (hs : cstep s l = som
           · simpa [hz] using this
       · cases hs
     · cases hs
+  | bgStart =>
+    simp only [cstep] at hs
+    split at hs
+    · rename_i hsp
+      cases hs
+      refine ⟨h.sub, h.stampRef, h.stampSeen, h.startedEmpty, h.now0, h.seenExpired, h.explained, ?_, ?_⟩
+      · intro c hc h0
+        have := h.bgCl c hc h0
+        rw [hsp] at this; cases this
+      · intro hrc
+        have := (h.closed hrc).1
+        rw [hsp] at this; cases this
+    · cases hs
   | bgTake =>
     simp only [cstep] at hs
     split at hs
@@ -970,6 +983,11 @@ theorem cinvB_step {s s' : CState} {l : Label} (hA : CInv s) (h : CInvB s)
           · exact hf
       · cases hs
     · cases hs
+  | bgStart =>
+    simp only [cstep] at hs
+    split at hs
+    · cases hs; exact ⟨h.setterExp, h.getStamp0, h.getterOld, h.clStamp0, h.floorLe, h.sealedTodo, h.resetTodo, h.floor⟩
+    · cases hs
   | bgTake =>
     simp only [cstep] at hs
     split at hs
@@ -1200,6 +1218,10 @@ theorem refAgree_step {M : Int} {s s' : CState} {l : Label} {hrev : List Op}
     exact ⟨h2 ▸ hM, fun k0 y hy => by rw [h1]; exact hR k0 y (h3 k0 y hy),
            fun g hg y hy => by rw [h1]; exact hG g (h4 g hg) y hy⟩
   | cEnd id =>
+    obtain ⟨h1, h2, h3, h4⟩ := cstep_frame hs rfl (fun _ _ => by simp)
+    exact ⟨h2 ▸ hM, fun k0 y hy => by rw [h1]; exact hR k0 y (h3 k0 y hy),
+           fun g hg y hy => by rw [h1]; exact hG g (h4 g hg) y hy⟩
+  | bgStart =>
     obtain ⟨h1, h2, h3, h4⟩ := cstep_frame hs rfl (fun _ _ => by simp)
     exact ⟨h2 ▸ hM, fun k0 y hy => by rw [h1]; exact hR k0 y (h3 k0 y hy),
            fun g hg y hy => by rw [h1]; exact hG g (h4 g hg) y hy⟩
@@ -1456,6 +1478,11 @@ theorem intact_step {s s' : CState} {l : Label} {k : Key} {e : Entry} {st : Nat}
         exact ⟨hr, hnr, fun c hc => hre c (List.mem_filter.1 hc).1,
                fun c hc => hseen c (List.mem_filter.1 hc).1⟩
       · cases hs
+    · cases hs
+  | bgStart =>
+    simp only [cstep] at hs
+    split at hs
+    · cases hs; exact ⟨hr, hnr, hre, hseen⟩
     · cases hs
   | bgTake =>
     simp only [cstep] at hs
